@@ -7,9 +7,11 @@
      image_de / image_ser the hand-written Image visitor and serializer (Serde/ImageDe.v), after the fixes
      pixels_of c data     the pixels a buffer in the c-channel layout stands for (specification)
      face_parse / face_print, parse_chord / print_chord, de_size / ser_size   the text / serde forms
-     view_de_kind         ViewDeserializer / TextDeserializer / Glyph visitor (Serde/ViewDe.v); `orc` and
-                          `frgba` are the external deserialisers (rasterize's Path, Scene, BBox, FillRule,
-                          colour names; derived Axis / Justify / Align / Margins) as arbitrary functions
+     view_de_kind         ViewDeserializer / TextDeserializer / Glyph visitor (Serde/ViewDe.v view_gen at unit); `orc` and
+                          `frgba` are the external deserialisers (rasterize's Path, Scene, BBox, FillRule, colour names;
+                          derived Axis / Justify / Align / Margins) as arbitrary functions, `handlers` the registered type names
+     view_tree            the same deserialiser building a view tree of the C10 model (Serde/ViewTree.v); node contents
+                          come from an arbitrary `content`
      no_panic o           o is Ok or Err (not Panic, and the model's fuel did not run out) *)
 From Coq Require Import String.
 From Coq Require Import List NArith ZArith Bool.
